@@ -20,6 +20,9 @@
 //! stream mapped back to the flavour table, which listeners accepted how many connections, the resolver's
 //! call log, `ConnectInfo::port()` of the request, addresses of the returned ConnectInfo, echo of a seeded random payload through the TLS
 //! stream (differential: bytes written == bytes read back).
+//! A connection that reaches a flavour listener after its call returned (dial still in flight) is attributed
+//! to that call (drained before the next call starts, after a grace period when the call ended abnormally);
+//! only arrivals before the first call are reported as unattributable (`leftover_accepts`).
 //! T: ndjson `{"ev":"reset"}` / `{"ev":"call","i":..,"inp":..,"obs":..,"raw":..}` / `{"ev":"end"}` per vector, judged
 //! by TLC (ConnectTrace.tla, predicate C19_Holds).  Last stdout line: the standard JSON summary.
 
@@ -29,7 +32,10 @@ use std::{
     io,
     net::{IpAddr, Ipv4Addr, Ipv6Addr, SocketAddr, TcpListener as StdListener},
     rc::Rc,
-    sync::Arc,
+    sync::{
+        atomic::{AtomicUsize, Ordering},
+        Arc,
+    },
     time::Duration,
 };
 
@@ -278,7 +284,7 @@ impl Env {
 // ---------------------------------------------------------------------------------------------
 struct TlsEnv {
     /// (trusted, server kind) -> address of the echo server
-    servers: HashMap<(bool, &'static str), SocketAddr>,
+    servers: HashMap<(bool, &'static str), (SocketAddr, Arc<AtomicUsize>)>,
     rustls_client: Arc<rustls::ClientConfig>,
     openssl_client: tls_openssl::ssl::SslConnector,
 }
@@ -355,10 +361,12 @@ async fn start_tls_env() -> TlsEnv {
             .expect("rustls server config");
         let acceptor = tokio_rustls_026::TlsAcceptor::from(Arc::new(cfg));
         let l = tokio::net::TcpListener::bind(SocketAddr::new(lo4(), 0)).await.unwrap();
-        servers.insert((trusted, "rustls"), l.local_addr().unwrap());
+        let count = Arc::new(AtomicUsize::new(0));
+        servers.insert((trusted, "rustls"), (l.local_addr().unwrap(), count.clone()));
         actix_rt::spawn(async move {
             loop {
                 if let Ok((io, _)) = l.accept().await {
+                    count.fetch_add(1, Ordering::SeqCst);
                     let acc = acceptor.clone();
                     actix_rt::spawn(async move {
                         if let Ok(Ok(s)) = tokio::time::timeout(Duration::from_secs(10), acc.accept(io)).await {
@@ -379,10 +387,12 @@ async fn start_tls_env() -> TlsEnv {
         b.set_certificate(&X509::from_pem(leaf.cert_pem.as_bytes()).unwrap()).unwrap();
         let acc = Arc::new(b.build());
         let l = tokio::net::TcpListener::bind(SocketAddr::new(lo4(), 0)).await.unwrap();
-        servers.insert((trusted, "openssl"), l.local_addr().unwrap());
+        let count = Arc::new(AtomicUsize::new(0));
+        servers.insert((trusted, "openssl"), (l.local_addr().unwrap(), count.clone()));
         actix_rt::spawn(async move {
             loop {
                 if let Ok((io, _)) = l.accept().await {
+                    count.fetch_add(1, Ordering::SeqCst);
                     let acc = acc.clone();
                     actix_rt::spawn(async move {
                         let ssl = match Ssl::new(acc.context()) {
@@ -654,19 +664,40 @@ async fn run_net<R: MkHost>(env: &Env, inp: &Value) -> CallOut {
 async fn run_tls<R: MkHost>(env: &Env, inp: &Value, rng: &mut Rng, rounds: usize, server_kind: &'static str) -> CallOut {
     let tls = env.tls.as_ref().unwrap();
     let trusted = inp["trusted"].as_bool().unwrap();
-    let server = tls.servers[&(trusted, server_kind)];
+    let (server, _) = tls.servers[&(trusted, server_kind)];
+    let counts_before: HashMap<(bool, &'static str), usize> =
+        tls.servers.iter().map(|(k, (_, c))| (*k, c.load(Ordering::SeqCst))).collect();
     let host = host_string(env, inp);
     let info: ConnectInfo<R> = ConnectInfo::new(R::mk(host.clone())).set_addr(server);
     let mut obs = json!({"res": "", "variant": "", "errfls": [], "peer": {"fl": "none", "pos": 0}, "accepted": [],
                          "rcalls": [], "addrs": [], "rport": "", "echo": ""});
     let mut raw = json!({"host": host, "server": server_kind, "lib": inp["lib"]});
+    obs["rport"] = json!(env.slot_of(info.port()));
     let conn = match tokio::time::timeout(CALL_TIMEOUT, Connector::default().service().call(info)).await {
-        Ok(Ok(c)) => c,
+        Ok(Ok(c)) => Some(c),
         other => {
             obs["res"] = json!("tcp-failed");
             raw["err"] = json!(format!("{:?}", other.map(|r| r.map(|_| ()))));
-            return CallOut { obs, raw };
+            None
         }
+    };
+    // where did the TCP stage connect to?  (the request carries the TLS server's address)
+    let mut at_server = false;
+    if let Some(c) = &conn {
+        if let Ok(p) = c.io_ref().peer_addr() {
+            at_server = p == server;
+            obs["peer"] = if at_server { json!({"fl": "tls", "pos": 1}) } else { env.id_json(&p) };
+            raw["peer"] = json!(p.to_string());
+        }
+    }
+    let conn = match conn {
+        Some(c) if at_server => Some(c),
+        Some(_) => {
+            // connected somewhere else: a handshake with a listener that never answers proves nothing
+            obs["res"] = json!("not-attempted");
+            None
+        }
+        None => None,
     };
     // payload rounds: bytes written must come back unchanged
     async fn exchange<S: AsyncReadExt + AsyncWriteExt + Unpin>(s: &mut S, rng: &mut Rng, rounds: usize) -> Result<usize, String> {
@@ -715,19 +746,44 @@ async fn run_tls<R: MkHost>(env: &Env, inp: &Value, rng: &mut Rng, rounds: usize
             }
         };
     }
-    match inp["lib"].as_str().unwrap() {
-        "rustls" => {
+    match (inp["lib"].as_str().unwrap(), conn) {
+        (_, None) => {}
+        ("rustls", Some(conn)) => {
             let s = actix_tls::connect::rustls_0_23::TlsConnector::service(tls.rustls_client.clone());
             let r = tokio::time::timeout(CALL_TIMEOUT, s.call(conn)).await;
             finish!(r);
         }
-        "openssl" => {
+        ("openssl", Some(conn)) => {
             let s = actix_tls::connect::openssl::TlsConnector::service(tls.openssl_client.clone());
             let r = tokio::time::timeout(CALL_TIMEOUT, s.call(conn)).await;
             finish!(r);
         }
-        other => panic!("driver: lib {other}"),
+        (other, _) => panic!("driver: lib {other}"),
     }
+    // who accepted: flavour listeners (kernel queues) and the TLS servers (accept counters; give the
+    // server's accept task a moment when the TCP stage did reach it)
+    if at_server {
+        let c = &tls.servers[&(trusted, server_kind)].1;
+        for _ in 0..500 {
+            if c.load(Ordering::SeqCst) > counts_before[&(trusted, server_kind)] {
+                break;
+            }
+            tokio::time::sleep(Duration::from_millis(1)).await;
+        }
+    }
+    let mut accepted = vec![];
+    for (k, (_, c)) in &tls.servers {
+        let d = c.load(Ordering::SeqCst) - counts_before[k];
+        if d > 0 {
+            let fl = if *k == (trusted, server_kind) { "tls".to_string() } else { format!("tls-other:{}:{}", k.0, k.1) };
+            accepted.push(json!({"fl": if d == 1 { fl } else { format!("{fl}(x{d})") }, "pos": 1}));
+        }
+    }
+    for (id, peers) in env.drain() {
+        accepted.push(json!({"fl": id.0, "pos": id.1}));
+        raw["accept_counts"][format!("{}:{}", id.0, id.1)] = json!(peers.len());
+    }
+    obs["accepted"] = Value::Array(accepted);
     CallOut { obs, raw }
 }
 
@@ -742,7 +798,7 @@ fn matches(inp: &Value, obs: &Value, exp: &Value) -> bool {
         return false;
     }
     if inp["svc"] == "tls" {
-        return obs["echo"] == exp["echo"];
+        return obs["echo"] == exp["echo"] && obs["peer"] == exp["peer"] && same_set(&obs["accepted"], &[exp["peer"].clone()]);
     }
     if obs["variant"] != exp["variant"] || obs["rcalls"] != exp["rcalls"] {
         return false;
@@ -766,8 +822,54 @@ fn matches(inp: &Value, obs: &Value, exp: &Value) -> bool {
     true
 }
 
+struct Pending {
+    i: usize,
+    out: CallOut,
+}
+
+/// compares a finished call with the spec's expectation and writes its trace records
+struct Judge {
+    trace: Trace,
+    mismatches: u64,
+    first: Vec<Value>,
+    late_accepts: u64,
+}
+
+impl Judge {
+    /// `late`: connections found on the flavour listeners after the call had returned (before the next
+    /// call started): they are attributed to this call
+    fn finish(&mut self, vecs: &[Value], p: Pending, late: BTreeMap<Id, Vec<SocketAddr>>) {
+        let Pending { i, mut out } = p;
+        let v = &vecs[i];
+        let inp = &v["inp"];
+        for (id, peers) in late {
+            self.late_accepts += peers.len() as u64;
+            let e = json!({"fl": id.0, "pos": id.1});
+            let acc = out.obs["accepted"].as_array_mut().unwrap();
+            if acc.contains(&e) {
+                acc.push(json!({"fl": format!("{}(late again)", id.0), "pos": id.1}));
+            } else {
+                acc.push(e);
+            }
+            out.raw["late_accepts"][format!("{}:{}", id.0, id.1)] = json!(peers.len());
+        }
+        let ok = v["allowed"].as_array().unwrap().iter().any(|e| matches(inp, &out.obs, e));
+        if !ok {
+            self.mismatches += 1;
+            if self.first.len() < 20 {
+                self.first.push(json!({"run": i, "step": inp["svc"], "expected": v["allowed"][0], "observed": out.obs, "raw": out.raw}));
+            }
+        }
+        self.trace.emit(&json!({"ev": "reset", "i": i}));
+        self.trace.emit(&json!({"ev": "call", "i": i, "inp": inp, "obs": out.obs, "raw": out.raw}));
+        self.trace.emit(&json!({"ev": "end", "i": i}));
+    }
+}
+
 fn main() {
-    quiet_panics();
+    if std::env::var_os("VERIF_LOUD").is_none() {
+        quiet_panics();
+    }
     let mode = std::env::args().nth(1).unwrap_or_default();
     if mode != "vectors" {
         eprintln!("usage: vconnect vectors --schedules F --trace T [--seed S] [--host-type string|static] [--rounds K]");
@@ -785,9 +887,8 @@ fn main() {
     if vecs.iter().any(|v| v["inp"]["svc"] == "tls") {
         env.tls = Some(rt.block_on(start_tls_env()));
     }
-    let mut trace = Trace::create(&tfile);
-    let mut mismatches = 0u64;
-    let mut first: Vec<Value> = vec![];
+    let mut judge = Judge { trace: Trace::create(&tfile), mismatches: 0, first: vec![], late_accepts: 0 };
+    let mut pending: Option<Pending> = None;
     let mut steps = 0u64;
     let mut skipped: BTreeMap<&'static str, u64> = BTreeMap::new();
     let mut by_svc: BTreeMap<String, u64> = BTreeMap::new();
@@ -811,8 +912,13 @@ fn main() {
             *skipped.entry(why).or_default() += 1;
             continue;
         }
+        // connections that arrived after the previous call returned belong to that call (a dial that
+        // was still in flight); before the first call they cannot be attributed to anything
         let pre = env.drain();
-        env.leftovers += pre.values().map(|p| p.len() as u64).sum::<u64>();
+        match pending.take() {
+            Some(p) => judge.finish(&vecs, p, pre),
+            None => env.leftovers += pre.values().map(|p| p.len() as u64).sum::<u64>(),
+        }
         let server_kind: &'static str = if (i as u64 + seed) % 2 == 0 { "rustls" } else { "openssl" };
         let out = catch(|| {
             rt.block_on(async {
@@ -828,7 +934,6 @@ fn main() {
             Ok(o) => o,
             Err(msg) => {
                 panics += 1;
-                let _ = env.drain();
                 CallOut {
                     obs: json!({"res": "panic", "variant": "", "errfls": [], "peer": {"fl": "none", "pos": 0}, "accepted": [],
                                 "rcalls": [], "addrs": [], "rport": "", "echo": ""}),
@@ -841,17 +946,22 @@ fn main() {
         if out.obs["res"] == "ok" {
             connects_ok += 1;
         }
-        let ok = v["allowed"].as_array().unwrap().iter().any(|e| matches(inp, &out.obs, e));
-        if !ok {
-            mismatches += 1;
-            if first.len() < 20 {
-                first.push(json!({"run": i, "step": svc, "expected": v["allowed"][0], "observed": out.obs, "raw": out.raw}));
-            }
+        // a call that did not end normally may have left a dial in flight: give it a grace period now
+        let abnormal = !matches!(out.obs["res"].as_str(), Some("ok") | Some("err"));
+        if abnormal {
+            rt.block_on(async { tokio::time::sleep(Duration::from_millis(150)).await });
+            let late = env.drain();
+            judge.finish(&vecs, Pending { i, out }, late);
+        } else {
+            pending = Some(Pending { i, out });
         }
-        trace.emit(&json!({"ev": "reset", "i": i}));
-        trace.emit(&json!({"ev": "call", "i": i, "inp": inp, "obs": out.obs, "raw": out.raw}));
-        trace.emit(&json!({"ev": "end", "i": i}));
     }
+    if let Some(p) = pending.take() {
+        rt.block_on(async { tokio::time::sleep(Duration::from_millis(30)).await });
+        let late = env.drain();
+        judge.finish(&vecs, p, late);
+    }
+    let Judge { trace, mismatches, first, late_accepts } = judge;
     trace.finish();
     let errno: BTreeMap<String, Option<i32>> = env
         .errno
@@ -862,7 +972,7 @@ fn main() {
         "{}",
         json!({"runs": vecs.len(), "steps": steps, "mismatches": mismatches, "first_mismatches": first,
                "skipped": skipped, "by_svc": by_svc, "ok_results": connects_ok, "panics": panics,
-               "leftover_accepts": env.leftovers,
+               "leftover_accepts": env.leftovers, "late_accepts_attributed": late_accepts,
                "env": {"ipv6_loopback": env.have_v6, "local_bind_127_0_0_2": env.have_bind, "errno": errno,
                        "seed": seed, "host_type": if static_host { "&'static str" } else { "String" }}})
     );
